@@ -20,9 +20,16 @@ FIXED = {  # commit subject prefix -> (property, key, what failed)
  "fix: undecodable response header metadata": ("C13", "header-badmd-hang", "first response with undecodable -bin metadata: Header() blocks forever, RecvMsg returns nil without data"),
  "fix: a unary reply without a header": ("C13", "unary-noheader-stats-nil", "unary reply without a header with a stats handler installed: nil dereference"),
  "fix: a stream whose opening write fails": ("C14", "failed-open-leaks-registration", "NewStream whose open envelope fails in the transport write never unregisters: one registry entry leaked per failed open"),
+ "fix: the proxy ignores envelopes without a header": ("C17", "proxy-spoof-panic", "envelope without header or with a source other than the sender's attached name: log.Panic kills the proxy"),
+ "fix: proxy peer loops no longer block forever": ("C17", "proxy-cancel-leak", "after the proxy context is cancelled every peer read loop (and failing write loops/dials) stays blocked sending its error to the exited forwarding loop"),
+ "fix: a failing old connection no longer removes": ("C17", "proxy-reattach-forgets-new", "peer re-attaches under its name, the old connection fails, the proxy deletes the new registration"),
  "fix: stream teardown unregisters before": ("C13", "teardown-rst-vs-dispatch", "transport failed, dispatch parked on the stream's full channel holds the mutex, teardown's reset write needs it: deadlock"),
 }
 KNOWN = [
+ dict(property="C16", key="proxy-drop", status="known",
+      what="proxy silently drops envelopes when a destination's 16-slot buffer is full (proxy.go forwardRpc: non-blocking enqueue, 'Dropping packet'): >=18 envelopes outstanding to one slow destination lose all but 17, and a relayed stream then ends in a clean io.EOF with messages missing",
+      matcher="burst sub-check only: number of lost envelopes == proxy.drop counter > 0 with >16 envelopes outstanding to one destination whose writes are parked; any loss with a zero drop counter, any duplicate or reordering, and any drop in the <=12-outstanding workloads is still a VIOLATION",
+      why_not_fixed="the repair is a flow-control design decision (back-pressure on the source, which gives up the proxy's isolation between peers that C17 demands, versus failing/resetting the affected stream, which needs protocol support in the proxy), not a small safe patch"),
 ]
 findings = list(KNOWN)
 for l in log:
